@@ -8,3 +8,4 @@ open StarsimModel.C02
 #print axioms C02_seed_from_path
 #print axioms C02_jump_own
 #print axioms C02_start_step_jumps_own
+#print axioms C02_no_shared_defaults
